@@ -328,6 +328,7 @@ type BoundSite struct {
 	Missing     string // which bound could not be established
 	Dead        bool   // the site is unreachable under the established facts
 	Partitioned bool   // proved by case analysis over the last edge into a dominating merge block
+	Context     int    // >0: proved per calling context of an unexported helper (number of contexts analysed)
 }
 
 // ZoneResult is the outcome for one function.
@@ -360,6 +361,8 @@ type zoneFn struct {
 	hits       map[ssa.Instruction]bool
 	seeds      map[*ssa.BasicBlock]*zstate // extra entry states (reach mode)
 	caseSel    map[*ssa.Call]int           // helper call -> selected return case (case analysis); absent = join of all cases
+	captureAt  ssa.Instruction             // flow records (a copy of) the state right before this instruction
+	captured   *zstate
 	summaries  map[*ssa.Function][]retCase
 }
 
@@ -503,7 +506,13 @@ func (z *zoneFn) lin(v ssa.Value) (int, int64, bool) {
 		if b, ok := x.X.Type().Underlying().(*types.Basic); ok && b.Info()&types.IsString != 0 {
 			z.lenTerm(x.X)
 			if ri, rk, ok := z.lin(x.Index); ok {
-				k := memKey{seqRoot(x.X), ri, rk}
+				seq := seqRoot(x.X)
+				if a, ok := z.sub[x.X]; ok {
+					seq = seqRoot(a)
+				} else if a, ok := z.sub[seq]; ok {
+					seq = seqRoot(a)
+				}
+				k := memKey{seq, ri, rk}
 				if mi, ok := z.mems[k]; ok {
 					return mi, 0, true
 				}
@@ -511,7 +520,7 @@ func (z *zoneFn) lin(v ssa.Value) (int, int64, bool) {
 					mi := z.newVar(fmt.Sprintf("%s[%s%+d]", x.X.Name(), z.names[ri], rk))
 					z.mems[k] = mi
 					z.memOf[ri] = append(z.memOf[ri], mi)
-					if li, ok := z.lens[seqRoot(x.X)]; ok {
+					if li, ok := z.lens[seq]; ok {
 						z.memOf[li] = append(z.memOf[li], mi)
 					}
 					return mi, 0, true
@@ -816,6 +825,42 @@ func (z *zoneFn) transfer(s *zstate, in ssa.Instruction, sites *[]BoundSite) {
 		b, kb, okb := z.lin(x.Y)
 		switch x.Op {
 		case token.ADD:
+			// off + strings.Index*(y[off:], …): an index into the suffix, rebased, is an index into y
+			for _, pr := range [][2]ssa.Value{{x.X, x.Y}, {x.Y, x.X}} {
+				call, isCall := pr[1].(*ssa.Call)
+				if !isCall {
+					continue
+				}
+				cal := Callee(call)
+				if cal == nil || cal.Pkg == nil || cal.Signature.Recv() != nil || !indexFuncs[cal.Name()] || len(call.Call.Args) < 1 {
+					continue
+				}
+				if pk := cal.Pkg.Pkg.Path(); pk != "strings" && pk != "bytes" {
+					continue
+				}
+				sub, isSlice := call.Call.Args[0].(*ssa.Slice)
+				if !isSlice || sub.High != nil || sub.Low == nil {
+					continue
+				}
+				lo, klo, oklo := z.lin(sub.Low)
+				off, koff, okoff := z.lin(pr[0])
+				yl, yk, oky := z.lenTerm(sub.X)
+				ri, _, okr := z.lin(call)
+				if !oklo || !okoff || !oky || lo != off || klo != koff {
+					continue
+				}
+				k := int64(1)
+				if cal.Name() == "Index" || cal.Name() == "LastIndex" {
+					k = 0
+					if sep, ok := ConstString(call.Call.Args[1]); ok && len(sep) > 0 {
+						k = int64(len(sep))
+					}
+				}
+				if k > 1 && !(okr && s.lower(ri) >= 0) {
+					k = 1
+				}
+				s.le(vi, 0, yl, yk, -k) // v <= len(y) - k
+			}
 			if oka && okb {
 				// v - a in [lb(b)+kb .. ub(b)+kb] + ka
 				if ub := s.upper(b); ub < zInf {
@@ -1508,8 +1553,211 @@ func (p *Prog) ZoneAnalyze(fn *ssa.Function) *ZoneResult {
 			}
 		}
 	}
+	// sites of an unexported helper that are still open: analyse the helper once per calling context (what its
+	// callers' states say about the arguments, and the outcomes of helper predicates on the same arguments that are
+	// known at the call) - sound because such a function is entered only through the static calls enumerated here
+	open := false
+	for _, st := range res.Sites {
+		if !st.Proved {
+			open = true
+		}
+	}
+	if open && !p.zoneInContext {
+		if entries := p.zoneCallContexts(z, entry); len(entries) > 0 {
+			provedAll := map[ssa.Instruction]bool{}
+			for si := range res.Sites {
+				if !res.Sites[si].Proved {
+					provedAll[res.Sites[si].Instr] = true
+				}
+			}
+			for _, est := range entries {
+				lins, _, _ := z.solve(z.rpo, map[*ssa.BasicBlock]*zstate{fn.Blocks[0]: est})
+				var ls []BoundSite
+				for _, b := range z.rpo {
+					z.flow(b, lins[b], &ls, nil)
+				}
+				ok := map[ssa.Instruction]bool{}
+				for _, l := range ls {
+					if l.Proved {
+						ok[l.Instr] = true
+					}
+				}
+				for in := range provedAll {
+					if !ok[in] {
+						provedAll[in] = false
+					}
+				}
+			}
+			for si := range res.Sites {
+				site := &res.Sites[si]
+				if !site.Proved && provedAll[site.Instr] {
+					site.Proved, site.Missing, site.Context = true, "", len(entries)
+				}
+			}
+		}
+	}
 	sort.SliceStable(res.Sites, func(i, j int) bool { return res.Sites[i].Instr.Pos() < res.Sites[j].Instr.Pos() })
 	return res
+}
+
+// zoneCallContexts: the entry states of the unexported, never-escaping function analysed by z, one per calling
+// context: per static call site the caller's zone state right before the call, projected onto the arguments
+// (integers, lengths, and bytes of immutable strings at argument-relative positions), refined - by cases - with the
+// known outcomes of boolean helper predicates that were applied to the same arguments. nil when the function can
+// be entered in other ways (exported, used as a value, no callers, recursive) or a caller is too large.
+func (p *Prog) zoneCallContexts(z *zoneFn, entry *zstate) []*zstate {
+	fn := z.fn
+	if fn.Parent() != nil || fn.Object() == nil || fn.Object().Exported() || fn.Signature.Recv() != nil || len(p.FuncValueUses(fn)) > 0 {
+		return nil // closures, exported functions, methods (interface dispatch) and escaping functions have callers that are not enumerable here
+	}
+	callers := p.StaticCallers(fn)
+	if len(callers) == 0 || len(callers) > 12 {
+		return nil
+	}
+	p.zoneInContext = true
+	defer func() { p.zoneInContext = false }()
+	var out []*zstate
+	for _, ci := range callers {
+		call, ok := ci.(*ssa.Call)
+		if !ok || call.Parent() == fn || len(call.Call.Args) != len(fn.Params) {
+			return nil
+		}
+		g := call.Parent()
+		zg, _, gentry, _ := p.zoneSetup(g)
+		if zg == nil {
+			return nil
+		}
+		gins, _, _ := zg.solve(zg.rpo, map[*ssa.BasicBlock]*zstate{g.Blocks[0]: gentry})
+		zg.captureAt = call
+		zg.flow(call.Block(), gins[call.Block()], nil, nil)
+		sg := zg.captured
+		if sg == nil || sg.bottom() {
+			continue // the call is unreachable under the caller's facts
+		}
+		// pairs (caller variable + offset) = callee variable
+		type pair struct {
+			gv int
+			gk int64
+			cv int
+		}
+		pairs := []pair{{0, 0, 0}}
+		prmIdx := map[int]int{} // callee variable of an integer parameter -> parameter index
+		for i, prm := range fn.Params {
+			a := call.Call.Args[i]
+			if cv, ok := z.vars[prm]; ok {
+				if gv, gk, ok := zg.lin(a); ok {
+					pairs = append(pairs, pair{gv, gk, cv})
+					prmIdx[cv] = i
+				}
+			}
+			if cl, ok := z.lens[seqRoot(prm)]; ok {
+				if gv, gk, ok := zg.lenTerm(a); ok {
+					pairs = append(pairs, pair{gv, gk, cl})
+				}
+			}
+		}
+		for k, cm := range z.mems {
+			seqP, isPrm := k.seq.(*ssa.Parameter)
+			rootI, rootIsPrm := prmIdx[k.root]
+			if !isPrm || seqP.Parent() != fn || (!rootIsPrm && k.root != 0) {
+				continue
+			}
+			var seqArg ssa.Value
+			for i, prm := range fn.Params {
+				if prm == seqP {
+					seqArg = seqRoot(call.Call.Args[i])
+				}
+			}
+			gv, gk := 0, int64(0)
+			if k.root != 0 {
+				var ok bool
+				gv, gk, ok = zg.lin(call.Call.Args[rootI])
+				if !ok {
+					continue
+				}
+			}
+			if gm, ok := zg.mems[memKey{seqArg, gv, gk + k.off}]; ok {
+				pairs = append(pairs, pair{gm, 0, cm})
+			}
+		}
+		est := entry.clone()
+		for _, a := range pairs {
+			for _, b := range pairs {
+				if a.cv == b.cv {
+					continue
+				}
+				if d := sg.m[a.gv*sg.n+b.gv]; d < zInf {
+					est.add(a.cv, b.cv, d+a.gk-b.gk)
+				}
+			}
+		}
+		for nk := range sg.neq {
+			for _, a := range pairs {
+				for _, b := range pairs {
+					if a.gv == nk.i && b.gv == nk.j && a.cv != b.cv {
+						est.addNeq(a.cv, b.cv, nk.c+a.gk-b.gk)
+					}
+				}
+			}
+		}
+		states := []*zstate{est}
+		// outcomes of helper predicates over the same arguments, known at the call
+		toParam := func(v ssa.Value) (ssa.Value, bool) {
+			if _, isConst := v.(*ssa.Const); isConst {
+				return v, true
+			}
+			for i, a := range call.Call.Args {
+				if a == v {
+					return fn.Params[i], true
+				}
+			}
+			return nil, false
+		}
+		for f := range p.FactsAt(call) {
+			hc, ok := f.Cond.(*ssa.Call)
+			if !ok || hc == call {
+				continue
+			}
+			h := Callee(hc)
+			if h == nil || !InModule(h) || h.Blocks == nil {
+				continue
+			}
+			sub := map[ssa.Value]ssa.Value{}
+			mappable := true
+			for i, prm := range h.Params {
+				if i >= len(hc.Call.Args) {
+					mappable = false
+					break
+				}
+				if v, ok := toParam(hc.Call.Args[i]); ok {
+					sub[prm] = v
+				} else {
+					mappable = false
+				}
+			}
+			cases, _ := p.CalleeCases(hc, f.Val)
+			if !mappable || len(cases) == 0 || len(states)*len(cases) > 16 {
+				continue
+			}
+			var next []*zstate
+			for _, st := range states {
+				for _, cs := range cases {
+					ns := st.clone()
+					z.sub = sub
+					z.subDepth++
+					z.applyFacts(ns, cs)
+					z.subDepth--
+					z.sub = nil
+					if !ns.bottom() {
+						next = append(next, ns)
+					}
+				}
+			}
+			states = next
+		}
+		out = append(out, states...)
+	}
+	return out
 }
 
 // ZoneReach answers a path-feasibility question with the zone analysis: starting right after instruction `from`
@@ -1716,6 +1964,9 @@ func (z *zoneFn) flow(b *ssa.BasicBlock, in *zstate, sites *[]BoundSite, outs ma
 		}
 		if z.barrier != nil && z.barrier(in) {
 			s.m, s.neq = nil, nil
+		}
+		if z.captureAt != nil && in == z.captureAt {
+			z.captured = s.clone()
 		}
 		z.transfer(s, in, sites)
 	}
